@@ -36,16 +36,17 @@ def r_good_split(ck: Checker) -> None:
     it = ck.interp(func)
     new, rest, stm = func.params()[1:4]
     rets = [r for r in returns_of(func) if r.value is not None and not is_const(r.value, None)]
-    ck.need(len(rets) == 1, "good_split has one successful return")
-    ret = rets[0]
-    ck.add("ORDER interface variables are sorted", unparse(ret.value) == "sorted(t)", func, ret, f"returns `{unparse(ret.value)}`", "C17: the argument order of the aux predicate must not depend on set iteration order")  # type: ignore[arg-type]
-    ck.guard("B1 the moved part binds all its variables", func, ret, f"not collect_binding_information_body({new})[1]", "the auxiliary rule must be safe")
-    ck.guard("B5 the remaining rule stays safe given the interface variables", func, ret, f"not collect_binding_information_body({rest}, t)[1]", "")
-    ck.guard("B2 no global variable becomes local", func, ret, "not local_new.intersection(global_old)",
-             "a variable that is global in the rule but only occurs inside a condition of the moved part would become local to that condition in the aux rule")
-    ck.guard("B6 aggregates are not split across the two rules", func, ret, "not (new_aggs and rest_aggs)", "")
-    ck.guard("the remaining rule keeps a positive atom", func, ret, "any(map(aux, rest))".replace("rest", rest), "")
-    ck.guard("split size is legal", func, ret, f"(1 < len({new}) < len({stm}.body)) or not len({rest})", "")
+    ck.need(len(rets) >= 1, "good_split has a successful return")
+    # every way of answering "good split" has to satisfy all side conditions (a fast path or a remembered answer included)
+    for ret in rets:
+        ck.add("ORDER interface variables are sorted", unparse(ret.value) == "sorted(t)", func, ret, f"returns `{unparse(ret.value)}`", "C17: the argument order of the aux predicate must not depend on set iteration order")  # type: ignore[arg-type]
+        ck.guard("B1 the moved part binds all its variables", func, ret, f"not collect_binding_information_body({new})[1]", "the auxiliary rule must be safe")
+        ck.guard("B5 the remaining rule stays safe given the interface variables", func, ret, f"not collect_binding_information_body({rest}, t)[1]", "")
+        ck.guard("B2 no global variable becomes local", func, ret, "not local_new.intersection(global_old)",
+                 "a variable that is global in the rule but only occurs inside a condition of the moved part would become local to that condition in the aux rule")
+        ck.guard("B6 aggregates are not split across the two rules", func, ret, "not (new_aggs and rest_aggs)", "")
+        ck.guard("the remaining rule keeps a positive atom", func, ret, "any(map(aux, rest))".replace("rest", rest), "")
+        ck.guard("split size is legal", func, ret, f"(1 < len({new}) < len({stm}.body)) or not len({rest})", "")
     # definitions of the sets involved
     t = single_def(func, "t")
     want_t = f"global_vars_inside_body({new}).intersection(vars_in_rest | global_vars_inside_head({stm}.head))"
